@@ -844,7 +844,7 @@ class RULE_PARSE:
     only_raises = ["ParseError"]
     frame = ["value", "cls"]
     modifies = ["context.errors"]
-    tags = {"verdict_is_clean": ["C10"], "only_raises": ["C04"], "no_input_mutation": ["C19"]}
+    tags = {"verdict_is_clean": ["C10", "C01"], "only_raises": ["C04"], "no_input_mutation": ["C19"]}
     assumes = ["pre_validate / post_validate are the identity hooks of Rule (inlined from the source; user overrides are outside the claim)",
                "context.tmp_errors is empty on entry when the final raise_error is reached (callers pass a context whose pending union errors were cleared)"]
 
